@@ -263,6 +263,9 @@ func scenarios(check string) []scenario {
 		// the openings of the last round of the offline presigning (presignature id and its decommitment, S share)
 		l = append(l, scenario{Name: "cmp-presign/n2/t1/last-round-openings", Proto: "cmp-presign", N: 2, T: 1, Cost: 2,
 			OnlyPaths: []string{"/PresignatureID", "/DecommitmentID", "/S"}})
+		// ... and with three signers, where the last (never echoed) broadcast can be shown differently to the two honest ones
+		l = append(l, scenario{Name: "cmp-presign/n3/t1/last-round-id", Proto: "cmp-presign", N: 3, T: 1, Cost: 2,
+			OnlyPaths: []string{"/PresignatureID", "/DecommitmentID"}})
 	}
 	if check == "C03" || check == "C04" {
 		// the signature share of the online phase on a digest LONGER than a scalar (64 bytes, what the package's own tests sign)
